@@ -5,8 +5,14 @@
 
     [build] is factored exactly as the Go code computes it: first the values a routing tag
     stands for ([intent]: service, route, destination, weight literal, plain tags, options), then
-    their concatenation into one line of text ([render_intent]).  The property is about the second
-    step composed with the parser: does the text denote the values it was made from?
+    their concatenation into one line of text ([render_intent]), then (since /repo d16ce3d) the
+    check of that line against the table on its own ([validate]: no CR / LF, and route.NewTable --
+    C05's [new_table] -- accepts the single line); a rejected line is skipped.  The property is
+    about the text composed with the parser: does it denote the values it was made from, and is
+    an inexpressible registration dropped on its own?
+
+    Until d16ce3d tags and options were written with strconv.Quote and nothing was validated:
+    that behaviour is kept as [render_intent_unrepaired] / [build_unrepaired] for the refutations.
 
     Library behaviour, modelled executably and compared with the library on every case:
       os.Expand                    -> [expand]
@@ -239,16 +245,40 @@ Section Quote.
   Definition s_tags := bs " tags ".
   Definition s_opts := bs " opts ".
 
-  Definition render_intent (i : intent) : str :=
+  (* the line as routecmd.build wrote it until /repo d16ce3d: strconv.Quote, no validation *)
+  Definition render_intent_unrepaired (i : intent) : str :=
     s_route_add ++ i_svc i ++ sp ++ i_route i ++ sp ++ i_dst i
     ++ (match i_weight i with [] => [] | w => s_weight ++ w end)
     ++ (match i_tags i with [] => [] | ts => s_tags ++ quote (join ts [44]) end)
     ++ (match i_opts i with [] => [] | os => s_opts ++ quote (join os sp) end).
 
-  (* routecmd.build *)
-  Definition build (env : env_t) (prefix : str) (g : reg) : list str :=
-    map render_intent (intents env prefix g).
+  Definition build_unrepaired (env : env_t) (prefix : str) (g : reg) : list str :=
+    map render_intent_unrepaired (intents env prefix g).
 End Quote.
+
+(* ---------------- the text of one command (since d16ce3d): the bytes between the quotes are
+   the tags / options as they are ---------------- *)
+Definition render_intent (i : intent) : str :=
+  s_route_add ++ i_svc i ++ sp ++ i_route i ++ sp ++ i_dst i
+  ++ (match i_weight i with [] => [] | w => s_weight ++ w end)
+  ++ (match i_tags i with [] => [] | ts => s_tags ++ [34] ++ join ts [44] ++ [34] end)
+  ++ (match i_opts i with [] => [] | os => s_opts ++ [34] ++ join os sp ++ [34] end).
+
+Section Build.
+  (* strconv.ParseFloat, url.Parse, glob.Compile as in Model/RouteText.v, Model/TableCmd.v *)
+  Variable pweight : str -> outcome wt.
+  Variable canon : str -> option str.
+  Variable glob_ok : str -> bool.
+
+  (* validate(cfg): no CR / LF, and route.NewTable accepts cfg as a single command *)
+  Definition validate (cmd : str) : bool :=
+    negb (existsb (fun c => (c =? 13) || (c =? 10)) cmd)
+    && is_ok (new_table pweight canon glob_ok cmd).
+
+  (* routecmd.build: a rejected command is skipped, the others are kept *)
+  Definition build (env : env_t) (prefix : str) (g : reg) : list str :=
+    filter validate (map render_intent (intents env prefix g)).
+End Build.
 
 (* ---------------- makeConfig's sort.Sort(sort.Reverse(sort.StringSlice(config))) + Join ----------------
    Equal strings are indistinguishable, so the (unstable) sort has one possible result. *)
@@ -273,7 +303,7 @@ Definition intent_def (pweight : str -> outcome wt) (i : intent) : outcome def :
   end.
 
 (* ---------------- which registrations the command language can express ----------------
-   Decidable.  What the libraries say is a parameter: [isprint] (strconv.IsPrint), [pweight]
+   Decidable.  What the libraries say is a parameter: [pweight]
    (strconv.ParseFloat), [canon] (url.Parse), [glob_ok] (glob.Compile: addRoute compiles every
    path, whatever the matcher, and -- since /repo c9fb527 -- the lower-cased host of a new host). *)
 Definition nonempty (s : str) : bool := match s with [] => false | _ => true end.
@@ -283,7 +313,49 @@ Definition no_quote (s : str) : bool := negb (existsb (N.eqb 34) s).
 Definition no_comma (s : str) : bool := negb (existsb (N.eqb 44) s).
 Definition no_nl (s : str) : bool := negb (existsb (N.eqb 10) s).
 
+Definition no_cr (s : str) : bool := negb (existsb (N.eqb 13) s).
+
 Section Expressible.
+  Variable pweight : str -> outcome wt.
+  Variable canon : str -> option str.
+  Variable glob_ok : str -> bool.
+
+  Definition weight_ok (w : str) : bool :=
+    match w with [] => true | _ => space_free w && is_ok (pweight w) end.
+  Definition tags_ok (ts : list str) : bool :=
+    match ts with
+    | [] => true
+    | [[]] => false                                   (* a single empty tag reads back as no tag *)
+    | _ => forallb (fun t => no_quote t && no_comma t && no_nl t && no_cr t && beq (trim_space t) t) ts
+    end.
+  Definition opts_ok (os : list str) : bool := forallb (fun o => word_ok o && no_quote o) os.
+
+  (* what the command language can say: name, route and destination are words, path and
+     (lower-cased) host compile as globs, the destination is a URL, the weight is a float, tags
+     and options are free of double quotes, tags of commas, line breaks and outer blanks, and a
+     sole tag is not empty *)
+  Definition intent_expressible (i : intent) : bool :=
+    word_ok (i_svc i) && word_ok (i_route i) && glob_ok (snd (hostpath (i_route i)))
+    && glob_ok (lower (fst (hostpath (i_route i))))
+    && word_ok (i_dst i) && (match canon (i_dst i) with Some _ => true | None => false end)
+    && weight_ok (i_weight i)
+    && tags_ok (i_tags i) && opts_ok (i_opts i).
+
+  (* the registration is skipped by build: what the property allows for an inexpressible one *)
+  Definition dropped (i : intent) : bool := negb (validate pweight canon glob_ok (render_intent i)).
+
+  (* finding region 2 (narrowed by d16ce3d): the line is accepted although the registration is
+     not expressible -- a tag containing a comma, a sole empty tag, a service name with a blank
+     at either end: the table then holds something else than was registered *)
+  Definition F_C14_altering (i : intent) : bool :=
+    validate pweight canon glob_ok (render_intent i) && negb (intent_expressible i).
+
+  Definition expressible (env : env_t) (prefix : str) (g : reg) : bool :=
+    forallb intent_expressible (intents env prefix g).
+End Expressible.
+
+(* the regions of the code before d16ce3d (strconv.Quote, no validation), for the refutations *)
+Section ExpressibleUnrepaired.
   Variable isprint : N -> bool.
   Variable pweight : str -> outcome wt.
   Variable canon : str -> option str.
@@ -292,33 +364,16 @@ Section Expressible.
   (* strconv.Quote adds the two quotes and nothing else *)
   Definition quote_stable (s : str) : bool := beq (quote_body isprint O false s) s.
 
-  Definition weight_ok (w : str) : bool :=
-    match w with [] => true | _ => space_free w && is_ok (pweight w) end.
-  Definition tags_ok (ts : list str) : bool :=
-    match ts with
-    | [] => true
-    | [[]] => false                                   (* a single empty tag reads back as no tag *)
-    | _ => forallb (fun t => no_quote t && no_comma t && no_nl t && beq (trim_space t) t) ts
-           && quote_stable (join ts [44])
-    end.
-  Definition opts_ok (os : list str) : bool :=
-    forallb (fun o => word_ok o && no_quote o) os && quote_stable (join os sp).
-
-  (* finding region 1: the generated line is rejected by the parser or by addRoute (and with it
-     the whole text) *)
+  (* old region 1: the generated line was rejected, and with it the whole text *)
   Definition F_C14_blocking (i : intent) : bool :=
     negb (word_ok (i_svc i) && word_ok (i_route i) && glob_ok (snd (hostpath (i_route i)))
           && glob_ok (lower (fst (hostpath (i_route i))))
           && word_ok (i_dst i) && (match canon (i_dst i) with Some _ => true | None => false end)
-          && weight_ok (i_weight i)
+          && weight_ok pweight (i_weight i)
           && forallb no_quote (i_tags i) && forallb no_quote (i_opts i)).
-  (* finding region 2: the line is accepted but its tags / options are not the registered ones *)
-  Definition F_C14_altering (i : intent) : bool :=
-    negb (F_C14_blocking i) && negb (tags_ok (i_tags i) && opts_ok (i_opts i)).
-
-  Definition intent_expressible (i : intent) : bool :=
-    negb (F_C14_blocking i) && negb (F_C14_altering i).
-
-  Definition expressible (env : env_t) (prefix : str) (g : reg) : bool :=
-    forallb intent_expressible (intents env prefix g).
-End Expressible.
+  (* old region 2: accepted, but strconv.Quote changed the bytes between the quotes *)
+  Definition F_C14_altering_unrepaired (i : intent) : bool :=
+    negb (F_C14_blocking i)
+    && negb (tags_ok (i_tags i) && quote_stable (join (i_tags i) [44])
+             && opts_ok (i_opts i) && quote_stable (join (i_opts i) sp)).
+End ExpressibleUnrepaired.
